@@ -59,7 +59,7 @@ MC_T = [('MC_Cache_quick.cfg', None), ('MC_Cache_quick_async.cfg', None),
         ('MC_Cache_w_noclamp.cfg', 'NeverBeyondSize'), ('MC_Cache_w_shortok.cfg', 'ReadsEqualSource'),
         ('MC_Cache_w_tailfront.cfg', 'ReadsEqualSource'), ('MC_Cache_w_asyncunlock.cfg', 'RefillDedup')]
 MODES_Q = [('map', 40), ('fiemap', 40), ('capfull', 30), ('async', 40), ('punchend', 2)]
-MODES_T = [('map', 700), ('fiemap', 700), ('capfull', 500), ('async', 700), ('punchend', 40)]
+MODES_T = [('map', 600), ('fiemap', 600), ('capfull', 450), ('async', 600), ('punchend', 12)]
 
 
 mc_finding = []      # replay files of the model-level counterexample of C17a
